@@ -1,4 +1,5 @@
 import HawkModel.TioLemmas
+import HawkModel.TioWriteLemmas
 /-!
 # C15 — text passes through unchanged
 
@@ -216,16 +217,101 @@ theorem legacy_overlapping_copy :
   rw [h1]
   rfl
 
-/-! ## tio write side -/
+/-! ## tio write side
 
-/-- **write-side round trip**: any sequence of `hawk_tio_writeuchars` calls with BMP characters succeeds; the bytes handed
-to the output handler followed by the bytes still staged are the encoding of all characters in order, whatever the
-segmentation, the capacity (≥ 3) and the flush policy; every handler call is within the capacity -/
-theorem tio_write_roundtrip (cfg : Cfg) (hT : cfg.tbl = T) (hc : 3 ≤ cfg.capa) (segs : List (List Nat)) (hb : BMP segs.flatten) :
-    (writeMany cfg segs {}).2 = true ∧ (writeMany cfg segs {}).1.all = encodeAll T segs.flatten ∧
-    ∀ ch ∈ (writeMany cfg segs {}).1.sink, ch.length ≤ cfg.capa := by
-  obtain ⟨h1, h2, h3⟩ := writeMany_bmp cfg hT hc segs {} hb (by simp; omega) (by intro ch h; simp at h)
-  exact ⟨h1, by simpa [OutSt.all] using h2, h3⟩
+The output handler is adversarial (`Reply`: accept 1 ≤ k ≤ offered bytes, accept nothing, fail; an exhausted script
+accepts everything).  `o.sink` = the slices it accepted, `o.buf` = what is staged, `o.all` = accepted followed by staged. -/
+
+/-- **`hawk_tio_flush`, every handler script**: the slices accepted by this call followed by what stays staged are exactly
+the bytes that were staged, in order (nothing lost, nothing handed out twice); each slice lies within the staged bytes;
+-1 is returned only with an undelivered remainder still staged; otherwise the count returned plus what stays staged is what
+was staged; and unless the handler fails the call does not fail -/
+theorem tio_flush_exactly_once (o : OutSt) :
+    (flush o).1.all = o.all ∧
+    (∃ extra, (flush o).1.sink = o.sink ++ extra ∧ extra.flatten ++ (flush o).1.buf = o.buf ∧
+        ∀ ch ∈ extra, ch.length ≤ o.buf.length) ∧
+    ((flush o).2 = none → (flush o).1.buf ≠ []) ∧
+    (∀ c, (flush o).2 = some c → c + (flush o).1.buf.length = o.buf.length) ∧
+    ((∀ x ∈ o.script, x ≠ .fail) → (flush o).2 ≠ none) := by
+  obtain ⟨h1, h2, _, _, h5, h6, h7⟩ := flush_spec o
+  exact ⟨h1, h2, h5, fun c hc => (h6 c hc).1, h7⟩
+
+/-- **a later successful flush delivers exactly the rest**: from any state (for instance the one a failed flush or write
+left behind), a flush that does not return -1, with a handler that never answers 0, leaves nothing staged: what the
+handler has then accepted, in total, is everything that was accepted or staged before — once, in order -/
+theorem tio_flush_completes (o : OutSt) (hz : ∀ x ∈ o.script, x ≠ .zero) (c : Nat) (hr : (flush o).2 = some c) :
+    (flush o).1.buf = [] ∧ (flush o).1.sink.flatten = o.all ∧ c = o.buf.length := by
+  obtain ⟨h1, _, _, _, _, h6, _⟩ := flush_spec o
+  obtain ⟨h2, h3⟩ := h6 c hr
+  have hb := h3 hz
+  refine ⟨hb, ?_, by rw [hb] at h2; simpa using h2⟩
+  rw [← h1]; simp [OutSt.all, hb]
+
+/-- **every sequence of write calls, every handler script** (`hawk_tio_writeuchars` with BMP characters,
+`hawk_tio_writebchars`, `hawk_tio_flush`; the caller goes on after failures): there are parts `ps`, one per call, with
+`ps[i]` a prefix of the bytes call `i` was asked to write and all of them when call `i` reported success, such that accepted
+followed by staged is the concatenation of the parts.  So what the handler accepted is a prefix of that text — every byte at
+most once and in order —, a call that lost part of its text reported failure, every accepted slice and the staging buffer
+stay within the capacity, and no call faults or hangs -/
+theorem tio_write_exactly_once (cfg : Cfg) (hT : cfg.tbl = T) (hc : 3 ≤ cfg.capa) (ops : List WOp) (hb : ∀ op ∈ ops, op.bmp)
+    (script : List Reply) :
+    ∃ ps, PartsOk ops (runOps cfg ops { script := script }).2 ps ∧
+      (runOps cfg ops { script := script }).1.all = ps.flatten ∧
+      (runOps cfg ops { script := script }).1.sink.flatten <+: ps.flatten ∧
+      (∀ ch ∈ (runOps cfg ops { script := script }).1.sink, ch.length ≤ cfg.capa) ∧
+      (runOps cfg ops { script := script }).1.buf.length ≤ cfg.capa := by
+  obtain ⟨ps, h1, h2, _⟩ := runOps_spec cfg hT hc ops { script := script } hb (by simp)
+  have hall : (runOps cfg ops { script := script }).1.all = ps.flatten := by simpa [OutSt.all] using h2.all
+  refine ⟨ps, h1, hall, ?_, h2.sinkOk (by intro ch h; simp at h), h2.len⟩
+  rw [← hall]; exact ⟨_, rfl⟩
+
+/-- when every call reported success the parts are the whole texts: accepted followed by staged is the text written so far,
+and what the handler accepted is a prefix of it -/
+theorem tio_write_success_is_text (cfg : Cfg) (hT : cfg.tbl = T) (hc : 3 ≤ cfg.capa) (ops : List WOp) (hb : ∀ op ∈ ops, op.bmp)
+    (script : List Reply) (hok : ∀ ok ∈ (runOps cfg ops { script := script }).2, ok = true) :
+    (runOps cfg ops { script := script }).1.all = (ops.map WOp.text).flatten ∧
+    (runOps cfg ops { script := script }).1.sink.flatten <+: (ops.map WOp.text).flatten := by
+  obtain ⟨ps, h1, h2, h3, _⟩ := tio_write_exactly_once cfg hT hc ops hb script
+  have := partsOk_all ops _ ps h1 hok
+  rw [this] at h2 h3
+  exact ⟨h2, h3⟩
+
+/-- and after a final flush that does not fail (handler never answering 0 from then on) the handler has accepted exactly
+the text written, once and in order -/
+theorem tio_write_final_flush (cfg : Cfg) (hT : cfg.tbl = T) (hc : 3 ≤ cfg.capa) (ops : List WOp) (hb : ∀ op ∈ ops, op.bmp)
+    (script : List Reply) (hok : ∀ ok ∈ (runOps cfg ops { script := script }).2, ok = true)
+    (hz : ∀ x ∈ (runOps cfg ops { script := script }).1.script, x ≠ .zero) (c : Nat)
+    (hr : (flush (runOps cfg ops { script := script }).1).2 = some c) :
+    (flush (runOps cfg ops { script := script }).1).1.sink.flatten = (ops.map WOp.text).flatten ∧
+    (flush (runOps cfg ops { script := script }).1).1.buf = [] := by
+  obtain ⟨h1, h2, _⟩ := tio_flush_completes _ hz c hr
+  exact ⟨by rw [h2]; exact (tio_write_success_is_text cfg hT hc ops hb script hok).1, h1⟩
+
+/-- a handler that always accepts something (at least one byte per call, however few): every call succeeds -/
+theorem tio_write_accepting_handler (cfg : Cfg) (hT : cfg.tbl = T) (hc : 3 ≤ cfg.capa) (ops : List WOp) (hb : ∀ op ∈ ops, op.bmp)
+    (script : List Reply) (ha : ∀ x ∈ script, isAcc x) : ∀ ok ∈ (runOps cfg ops { script := script }).2, ok = true := by
+  obtain ⟨_, _, _, h⟩ := runOps_spec cfg hT hc ops { script := script } hb (by simp)
+  exact h ha (by simp; omega)
+
+/-- **write-side round trip**: any sequence of `hawk_tio_writeuchars` calls with BMP characters, against a handler that always
+accepts something, succeeds; the bytes accepted followed by the bytes still staged are the encoding of all characters in
+order, whatever the segmentation, the capacity (≥ 3), the flush policy and the sizes the handler accepts; every accepted
+slice is within the capacity -/
+theorem tio_write_roundtrip (cfg : Cfg) (hT : cfg.tbl = T) (hc : 3 ≤ cfg.capa) (segs : List (List Nat)) (hb : BMP segs.flatten)
+    (script : List Reply) (ha : ∀ x ∈ script, isAcc x) :
+    (writeMany cfg segs { script := script }).2 = true ∧
+    (writeMany cfg segs { script := script }).1.all = encodeAll T segs.flatten ∧
+    ∀ ch ∈ (writeMany cfg segs { script := script }).1.sink, ch.length ≤ cfg.capa := by
+  have hbm : ∀ op ∈ segs.map WOp.u, op.bmp := by
+    intro op hop
+    obtain ⟨ws, hws, rfl⟩ := List.mem_map.mp hop
+    exact fun c hc' => hb c (List.mem_flatten.mpr ⟨ws, hws, hc'⟩)
+  have hok := tio_write_accepting_handler cfg hT hc _ hbm script ha
+  obtain ⟨h1, _⟩ := tio_write_success_is_text cfg hT hc _ hbm script hok
+  obtain ⟨_, _, _, _, h4, _⟩ := tio_write_exactly_once cfg hT hc _ hbm script
+  refine ⟨by simpa [writeMany, List.all_eq_true] using hok, ?_, h4⟩
+  simp only [writeMany]
+  rw [h1, encodeAll_flatten]
 
 /-- written text read back, through any chunking of the written bytes, is the text -/
 theorem tio_write_then_read (wcfg rcfg : Cfg) (hwT : wcfg.tbl = T) (hwc : 3 ≤ wcfg.capa) (hrT : rcfg.tbl = T)
@@ -234,7 +320,17 @@ theorem tio_write_then_read (wcfg rcfg : Cfg) (hwT : wcfg.tbl = T) (hwc : 3 ≤ 
     (hj : chunks.flatten = (writeMany wcfg segs {}).1.all) :
     readAll rcfg size (start chunks) = (segs.flatten, .eof) :=
   tio_read_chunk_independent rcfg hrT hrl hrc size hs segs.flatten hb chunks hne
-    (hj.trans (tio_write_roundtrip wcfg hwT hwc segs hb).2.1)
+    (hj.trans (tio_write_roundtrip wcfg hwT hwc segs hb [] (by intro x h; simp at h)).2.1)
+
+/-- the defect seeded as C05-r2s2 on a concrete run of the model of the *correct* code: "hello world\n" staged, the handler
+takes 5 bytes and then fails — the flush returns -1 with exactly the 7 undelivered bytes staged, and the next flush hands out
+exactly those (the changed code handed out 12) -/
+theorem flush_short_write_then_failure :
+    flush { buf := [0x68, 0x65, 0x6C, 0x6C, 0x6F, 0x20, 0x77, 0x6F, 0x72, 0x6C, 0x64, 0x0A], script := [.acc 4, .fail] } =
+      ({ buf := [0x20, 0x77, 0x6F, 0x72, 0x6C, 0x64, 0x0A], sink := [[0x68, 0x65, 0x6C, 0x6C, 0x6F]], script := [], ncalls := 2 }, none) ∧
+    flush { buf := [0x20, 0x77, 0x6F, 0x72, 0x6C, 0x64, 0x0A], sink := [[0x68, 0x65, 0x6C, 0x6C, 0x6F]], script := [], ncalls := 2 } =
+      ({ buf := [], sink := [[0x68, 0x65, 0x6C, 0x6C, 0x6F], [0x20, 0x77, 0x6F, 0x72, 0x6C, 0x64, 0x0A]], script := [], ncalls := 3 }, some 7) := by
+  constructor <;> rfl
 
 /-! ## bytes -/
 
@@ -245,24 +341,27 @@ theorem tio_read_bytes_identity (cfg : Cfg) (hc : 1 ≤ cfg.capa) (size : Nat) (
   have := readAllBytes_spec cfg hc size hs _ (start chunks) (Nat.le_refl _) hne
   simpa [remaining, start] using this
 
-/-- byte output (`hawk_tio_writebchars`): any sequence of byte writes hands out / stages exactly the bytes written, in order,
-every handler call within the capacity, whatever the capacity (≥ 1), the segmentation and the flush policy -/
-theorem tio_write_bytes_identity (cfg : Cfg) (hc : 1 ≤ cfg.capa) (segs : List (List UInt8)) :
-    (segs.foldl (fun o bs => (writeBchars cfg bs o).1) ({} : OutSt)).all = segs.flatten ∧
-    ∀ ch ∈ (segs.foldl (fun o bs => (writeBchars cfg bs o).1) ({} : OutSt)).sink, ch.length ≤ cfg.capa := by
-  have key : ∀ (segs : List (List UInt8)) (o : OutSt), SinkOk cfg o → o.buf.length < cfg.capa →
+/-- byte output (`hawk_tio_writebchars`): any sequence of byte writes against a handler that always accepts something hands
+out / stages exactly the bytes written, in order, every accepted slice within the capacity, whatever the capacity (≥ 1), the
+segmentation, the flush policy and the sizes the handler accepts (failing handlers: `tio_write_exactly_once`) -/
+theorem tio_write_bytes_identity (cfg : Cfg) (hc : 1 ≤ cfg.capa) (segs : List (List UInt8)) (script : List Reply)
+    (ha : ∀ x ∈ script, isAcc x) :
+    (segs.foldl (fun o bs => (writeBchars cfg bs o).1) ({ script := script } : OutSt)).all = segs.flatten ∧
+    ∀ ch ∈ (segs.foldl (fun o bs => (writeBchars cfg bs o).1) ({ script := script } : OutSt)).sink, ch.length ≤ cfg.capa := by
+  have key : ∀ (segs : List (List UInt8)) (o : OutSt), SinkOk cfg o → o.buf.length < cfg.capa → (∀ x ∈ o.script, isAcc x) →
       (segs.foldl (fun o bs => (writeBchars cfg bs o).1) o).all = o.all ++ segs.flatten ∧
       SinkOk cfg (segs.foldl (fun o bs => (writeBchars cfg bs o).1) o) := by
     intro segs
     induction segs with
-    | nil => intro o hs _; simp [hs]
+    | nil => intro o hs _ _; simp [hs]
     | cons bs rest ih =>
-      intro o hs hl
-      obtain ⟨_, h2, h3, h4⟩ := writeBchars_spec cfg bs o hs hl
-      obtain ⟨h5, h6⟩ := ih _ h3 h4
+      intro o hs hl hacc
+      obtain ⟨p, h1, _, h3, _, h5⟩ := writeBchars_spec cfg hc bs o (by omega)
+      obtain ⟨a, b, c⟩ := h5 hacc hl
+      obtain ⟨h6, h7⟩ := ih _ (h1.sinkOk hs) b c
       simp only [List.foldl_cons]
-      exact ⟨by rw [h5, h2]; simp, h6⟩
-  obtain ⟨h1, h2⟩ := key segs {} (by intro ch h; simp at h) (by simp; omega)
+      exact ⟨by rw [h6, h1.all, h3 a]; simp, h7⟩
+  obtain ⟨h1, h2⟩ := key segs { script := script } (by intro ch h; simp at h) (by simp; omega) ha
   exact ⟨by simpa [OutSt.all] using h1, h2⟩
 
 /-- the byte-string value operations are list operations in the model (tied to val.c/run.c/fnc.c only by the language-level
@@ -284,8 +383,9 @@ example : readAll { capa := 32 } 8 (start [[0x0A, 0xE2, 0x82], [0xAC, 0x0A]]) = 
 /-- a surrogate is an ordinary character for this codec -/
 example : encode T 0xD800 = [0xED, 0xA0, 0x80] ∧ utf8ToUc T [0xED, 0xA0, 0x80] = .ok (3, 0xD800) := ⟨rfl, rfl⟩
 
-example : (writeMany { capa := 32 } [[0x41, 0x20AC], [0x0A]] {}).1.all = [0x41, 0xE2, 0x82, 0xAC, 0x0A] :=
+example : (writeMany { capa := 32 } [[0x41, 0x20AC], [0x0A]] { script := [.acc 0, .acc 2] }).1.all = [0x41, 0xE2, 0x82, 0xAC, 0x0A] :=
   (tio_write_roundtrip { capa := 32 } rfl (by decide) [[0x41, 0x20AC], [0x0A]]
-    (by intro c hc; simp at hc; rcases hc with rfl | rfl | rfl <;> decide)).2.1
+    (by intro c hc; simp at hc; rcases hc with rfl | rfl | rfl <;> decide) [.acc 0, .acc 2]
+    (by intro x hx; simp at hx; rcases hx with rfl | rfl <;> trivial)).2.1
 
 end Hawk.C15
